@@ -429,3 +429,9 @@ v('c11-try-from-iter-lt', ['C11'], CS, "                if c.start <= prev.end {
 v('c11-try-from-iter-prev', ['C11'], CS, "                if c.start <= comp_witness {\n                    comp_witness = c.end + 1;\n                }\n                prev = c;", "                if c.start <= comp_witness {\n                    comp_witness = c.end + 1;\n                }", 'C11.R5')
 v('c11-try-from-iter-sortkey', ['C11'], CS, "v.sort_by_key(|c| c.start);", "v.sort_by_key(|c| c.end - c.start);", 'C11.R5')
 v('c11-try-from-iter-witness', ['C11'], CS, "                if c.start <= comp_witness {\n                    comp_witness = c.end + 1;\n                }\n                prev = c;", "                if c.start < comp_witness {\n                    comp_witness = c.end + 1;\n                }\n                prev = c;", 'C11.R5')
+
+
+# ---- loop-guard family
+import variants_loops
+for _d in variants_loops.L:
+    V.append(dict(_d))
